@@ -39,7 +39,6 @@ import (
 	apistatus "github.com/nspcc-dev/neofs-sdk-go/client/status"
 	"github.com/nspcc-dev/neofs-sdk-go/container"
 	cid "github.com/nspcc-dev/neofs-sdk-go/container/id"
-	cidtest "github.com/nspcc-dev/neofs-sdk-go/container/id/test"
 	neofscrypto "github.com/nspcc-dev/neofs-sdk-go/crypto"
 	neofsecdsa "github.com/nspcc-dev/neofs-sdk-go/crypto/ecdsa"
 	"github.com/nspcc-dev/neofs-sdk-go/eacl"
@@ -455,55 +454,80 @@ type v1Req struct {
 	obj  oid.ID
 }
 
-func genV1(g *rng, w *tworld, u *tuniverse, epoch uint64, rq v1Req, good bool) (*protosession.SessionToken, bool) {
+var v1Devs = []string{"nbf_future", "iat_future", "expired", "verb_other", "cnr_other", "obj_other", "issuer_other", "random"}
+
+// genV1 builds a token valid for the request except for at most one deviation applied before signing.
+func genV1(g *rng, w *tworld, u *tuniverse, epoch uint64, rq v1Req, dev string) *protosession.SessionToken {
 	var t session.Object
 	t.SetID(uuid.New())
 	t.SetAuthKey((*neofsecdsa.PublicKey)(&pick(g, u.actors[1:]).key.PublicKey))
-	span := func() uint64 { return epoch - 2 + uint64(g.n(5)) }
-	if good {
-		t.SetIat(epoch - uint64(g.n(3)))
-		t.SetNbf(epoch - uint64(g.n(3)))
-		t.SetExp(epoch + uint64(g.n(3)))
-		t.BindContainer(rq.cnr)
-		switch g.n(3) {
-		case 0:
-		case 1:
-			t.LimitByObjects(rq.obj)
-		default:
-			t.LimitByObjects(pick(g, u.oids), rq.obj)
-		}
-		v := rq.verb
-		switch rq.verb {
-		case session.VerbObjectHead:
-			v = pick(g, []session.ObjectVerb{session.VerbObjectHead, session.VerbObjectGet, session.VerbObjectDelete, session.VerbObjectRange})
-		case session.VerbObjectSearch:
-			v = pick(g, []session.ObjectVerb{session.VerbObjectSearch, session.VerbObjectDelete})
-		}
-		t.ForVerb(v)
-	} else {
-		t.SetIat(span())
-		t.SetNbf(span())
-		t.SetExp(span())
-		t.BindContainer(pick(g, u.cnrs))
-		for k := g.n(3); k > 0; k-- {
-			t.LimitByObjects(pick(g, u.oids))
-		}
-		t.ForVerb(session.ObjectVerb(1 + g.n(7)))
+	t.SetIat(epoch - uint64(g.n(3)))
+	t.SetNbf(epoch - uint64(g.n(3)))
+	t.SetExp(epoch + uint64(g.n(3)))
+	t.BindContainer(rq.cnr)
+	switch g.n(3) {
+	case 0:
+	case 1:
+		t.LimitByObjects(rq.obj)
+	default:
+		t.LimitByObjects(pick(g, u.oids), rq.obj)
 	}
-	n3 := g.p(12)
-	if n3 {
+	v := rq.verb
+	switch rq.verb {
+	case session.VerbObjectHead:
+		v = pick(g, []session.ObjectVerb{session.VerbObjectHead, session.VerbObjectGet, session.VerbObjectDelete, session.VerbObjectRange})
+	case session.VerbObjectSearch:
+		v = pick(g, []session.ObjectVerb{session.VerbObjectSearch, session.VerbObjectDelete})
+	}
+	t.ForVerb(v)
+	a := pick(g, u.actors[1:])
+	issuer := a
+	r7, r5a, r5b, r5c := g.n(7), g.n(5), g.n(5), g.n(5)
+	switch dev {
+	case "nbf_future":
+		t.SetNbf(epoch + 1 + uint64(g.n(2)))
+		t.SetExp(epoch + 3)
+	case "iat_future":
+		t.SetIat(epoch + 1 + uint64(g.n(2)))
+		t.SetExp(epoch + 3)
+	case "expired":
+		t.SetExp(epoch - 1 - uint64(g.n(2)))
+	case "verb_other":
+		t.ForVerb(session.ObjectVerb(1 + (int(rq.verb)+r7)%7))
+	case "cnr_other":
+		for _, c := range u.cnrs {
+			if c != rq.cnr {
+				t.BindContainer(c)
+			}
+		}
+	case "obj_other":
+		for _, o := range u.oids {
+			if o != rq.obj {
+				t.LimitByObjects(o)
+				break
+			}
+		}
+	case "issuer_other":
+		issuer = u.actors[1+(a.idx%5)]
+	case "random":
+		t.SetIat(epoch - 2 + uint64(r5a))
+		t.SetNbf(epoch - 2 + uint64(r5b))
+		t.SetExp(epoch - 2 + uint64(r5c))
+		t.BindContainer(pick(g, u.cnrs))
+		t.ForVerb(session.ObjectVerb(1 + r7))
+	}
+	if g.p(12) {
 		inv, ver, iss := n3Witness(g)
 		t.SetIssuer(iss)
 		t.AttachSignature(neofscrypto.NewN3Signature(inv, ver))
 		w.n3Register(iss, t.SignedData(), inv, ver)
 	} else {
-		a := pick(g, u.actors[1:])
-		t.SetIssuer(a.id)
+		t.SetIssuer(issuer.id)
 		if err := t.SetSignature(schemeSigners[g.n(3)](a)); err != nil {
 			panic(err)
 		}
 	}
-	return t.ProtoMessage(), n3
+	return t.ProtoMessage()
 }
 
 var v1Muts = []string{"exp", "nbf", "iat", "verb", "cnr", "objs", "issuer", "authkey", "id", "scheme", "sigkey", "sigval", "nosig", "byte", "nolife", "nobody"}
@@ -792,9 +816,9 @@ func genV2(g *rng, w *tworld, u *tuniverse, now uint64, rq v2Req, good bool, dep
 				ctxs = append(ctxs, c)
 			}
 			for _, cn := range sortedCnrs {
-				if cn == rq.cnr || g.p(40) {
+				if r40 := g.p(40); cn == rq.cnr || r40 {
 					must := sessionv2.Verb(0)
-					if cn == rq.cnr && (len(ctxs) == 0 || g.p(50)) {
+					if r50 := g.p(50); cn == rq.cnr && (len(ctxs) == 0 || r50) {
 						must = rq.verb
 					}
 					c, _ := sessionv2.NewContext(cn, sortedVerbs(g, must, 12))
@@ -832,6 +856,29 @@ func genV2(g *rng, w *tworld, u *tuniverse, now uint64, rq v2Req, good bool, dep
 				return bytes.Compare(a[:], b[:]) < 0
 			})
 			iat, nbf, exp = iat+uint64(g.n(2)), nbf+uint64(g.n(2)), exp-uint64(g.n(2))
+		}
+		if d == depth-1 {
+			// deviations of the outermost token w.r.t. the request
+			switch dev {
+			case "nbf_future":
+				nbf = now + 1 + uint64(g.n(2))
+			case "iat_future":
+				iat = now + 1 + uint64(g.n(2))
+			case "expired":
+				exp = now - 1 - uint64(g.n(2))
+			case "verb_missing":
+				var kept []sessionv2.Context
+				for _, c := range ctxs {
+					vs := slices.DeleteFunc(slices.Clone(c.Verbs()), func(v sessionv2.Verb) bool { return v == rq.verb })
+					if len(vs) > 0 {
+						c2, _ := sessionv2.NewContext(c.Container(), vs)
+						kept = append(kept, c2)
+					}
+				}
+				if len(kept) > 0 {
+					ctxs = kept
+				}
+			}
 		}
 		// deviations breaking exactly one rule at one layer
 		if dev != "" && d == devLayer {
@@ -1034,8 +1081,19 @@ func tokensMain(args []string) {
 	for i := 1; i <= 5; i++ {
 		u.actors[i] = newActor(i)
 	}
-	u.cnrs = []cid.ID{cidtest.ID(), cidtest.ID()}
-	u.oids = []oid.ID{oidtest.ID(), oidtest.ID(), oidtest.ID()}
+	fill := func(b []byte) {
+		for i := range b {
+			b[i] = byte(g.next() >> 24)
+		}
+	}
+	u.cnrs = make([]cid.ID, 2)
+	u.oids = make([]oid.ID, 3)
+	for i := range u.cnrs {
+		fill(u.cnrs[i][:])
+	}
+	for i := range u.oids {
+		fill(u.oids[i][:])
+	}
 	w := &tworld{epoch: 10, nns: map[string][]util.Uint160{}, cnrs: map[cid.ID]container.Container{}, n3reg: map[string]bool{}}
 	clk := &clock{t: time.Unix(1_700_000_000, 0)}
 	cache := isessions.NewObjectSessionsCache(1000)
@@ -1069,17 +1127,21 @@ func tokensMain(args []string) {
 		mut := ""
 		switch i % 3 {
 		case 0: // ---- v1
-			rq := v1Req{verb: session.ObjectVerb(1 + g.n(7)), cnr: pick(g, u.cnrs)}
-			if g.p(75) {
-				rq.obj = pick(g, u.oids)
+			rq := v1Req{verb: session.ObjectVerb(1 + g.n(7)), cnr: pick(g, u.cnrs), obj: pick(g, u.oids)}
+			if g.p(20) {
+				rq.obj = oid.ID{}
 			}
-			m, _ := genV1(g, w, u, w.epoch, rq, good)
+			dev := ""
+			if g.p(45) {
+				dev = pick(g, v1Devs)
+			}
+			m := genV1(g, w, u, w.epoch, rq, dev)
 			base := false
-			if good {
+			if dev == "" {
 				_, err := svc.VerifySessionV1TokenMessage(m, rq.verb, rq.cnr, rq.obj)
 				base = err == nil
 			}
-			if g.p(55) {
+			if g.p(40) {
 				mut = pick(g, v1Muts)
 				if m = mutateV1(g, u, m, mut); m == nil {
 					continue
@@ -1107,30 +1169,48 @@ func tokensMain(args []string) {
 			var bt bearer.Token
 			var tb eacl.Table
 			iss := owner
-			span := func() uint64 { return w.epoch - 2 + uint64(g.n(5)) }
-			if good {
-				if g.p(60) {
-					tb.SetCID(reqCnr)
+			dev := ""
+			if g.p(45) {
+				dev = pick(g, []string{"nbf_future", "iat_future", "expired", "owner_other", "cid_other", "user_other", "issuer_other", "random"})
+			}
+			good = dev == ""
+			if g.p(60) {
+				tb.SetCID(reqCnr)
+			}
+			if g.p(60) {
+				bt.ForUser(sender.id)
+			}
+			bt.SetIat(w.epoch - uint64(g.n(3)))
+			bt.SetNbf(w.epoch - uint64(g.n(3)))
+			bt.SetExp(w.epoch + uint64(g.n(3)))
+			r5a, r5b, r5c, r2 := g.n(5), g.n(5), g.n(5), g.n(2)
+			signer := iss
+			switch dev {
+			case "nbf_future":
+				bt.SetNbf(w.epoch + 1 + uint64(r2))
+				bt.SetExp(w.epoch + 3)
+			case "iat_future":
+				bt.SetIat(w.epoch + 1 + uint64(r2))
+				bt.SetExp(w.epoch + 3)
+			case "expired":
+				bt.SetExp(w.epoch - 1 - uint64(r2))
+			case "owner_other":
+				iss = u.actors[1+(owner.idx%5)]
+				signer = iss
+			case "cid_other":
+				for _, c := range u.cnrs {
+					if c != reqCnr {
+						tb.SetCID(c)
+					}
 				}
-				if g.p(60) {
-					bt.ForUser(sender.id)
-				}
-				bt.SetIat(w.epoch - uint64(g.n(3)))
-				bt.SetNbf(w.epoch - uint64(g.n(3)))
-				bt.SetExp(w.epoch + uint64(g.n(3)))
-			} else {
-				if g.p(60) {
-					tb.SetCID(pick(g, u.cnrs))
-				}
-				if g.p(60) {
-					bt.ForUser(pick(g, u.actors[1:]).id)
-				}
-				bt.SetIat(span())
-				bt.SetNbf(span())
-				bt.SetExp(span())
-				if g.p(40) {
-					iss = pick(g, u.actors[1:])
-				}
+			case "user_other":
+				bt.ForUser(u.actors[1+(sender.idx%5)].id)
+			case "issuer_other":
+				signer = u.actors[1+(owner.idx%5)]
+			case "random":
+				bt.SetIat(w.epoch - 2 + uint64(r5a))
+				bt.SetNbf(w.epoch - 2 + uint64(r5b))
+				bt.SetExp(w.epoch - 2 + uint64(r5c))
 			}
 			bt.SetEACLTable(tb)
 			if g.p(10) {
@@ -1141,7 +1221,7 @@ func tokensMain(args []string) {
 			} else {
 				bt.SetIssuer(iss.id)
 				var sg neofscrypto.Signature
-				if err := sg.Calculate(schemeSigners[g.n(3)](iss), bt.SignedData()); err != nil {
+				if err := sg.Calculate(schemeSigners[g.n(3)](signer), bt.SignedData()); err != nil {
 					panic(err)
 				}
 				bt.AttachSignature(sg)
@@ -1162,7 +1242,7 @@ func tokensMain(args []string) {
 				return 0
 			}
 			base := good && run(m) == 0
-			if g.p(55) {
+			if g.p(40) {
 				mut = pick(g, bMuts)
 				if m = mutateB(g, u, m, mut); m == nil {
 					continue
@@ -1190,9 +1270,11 @@ func tokensMain(args []string) {
 			if g.p(6) {
 				depth = 5 + g.n(2)
 			}
+			good = g.p(85)
 			dev := ""
-			if g.p(25) {
-				dev = pick(g, []string{"verbs_unsorted", "ctx_dup", "extra_verb", "life_outside", "version", "final", "nbf_after_exp", "appdata", "wrong_issuer"})
+			if g.p(40) {
+				dev = pick(g, []string{"verbs_unsorted", "ctx_dup", "extra_verb", "life_outside", "version", "final", "nbf_after_exp", "appdata", "wrong_issuer",
+					"nbf_future", "iat_future", "expired", "verb_missing", "nbf_future", "iat_future", "expired", "verb_missing"})
 			}
 			c := tokCase{Kind: "v2", Epoch: w.epoch, Now: now, ReqVerb: uint32(rq.verb)}
 			m := genV2(g, w, u, now, rq, good, depth, dev)
